@@ -25,6 +25,12 @@ def attach(obs, tag, prop, name, repo):
     rc, tail, py, scen = _scenario(name, repo)
     verif = os.path.dirname(os.path.dirname(os.path.abspath(__file__)))
     failed = [o for o in obs if o["status"] != "proved" and tag in o["id"]]
+    tries = 1
+    while not failed and rc != 0 and tries < 3:
+        # the scenarios use real (short) time-outs: on a loaded machine a stall can fail one run; a cross-check failure
+        # is only reported when it persists
+        rc, tail, py, scen = _scenario(name, repo)
+        tries += 1
     if failed and rc == 1:
         rp = os.path.join(os.environ.get("VERIF_OUT") or os.path.join(verif, "out"), "replay", f"{prop}-{name[:-3]}.sh")
         os.makedirs(os.path.dirname(rp), exist_ok=True)
